@@ -62,6 +62,9 @@ class Session:
         if k == 'fopen':
             self.fopens.append(kv.get('path'))
             return None
+        if k == 'http_fault_fired':
+            self.http_faults_fired = getattr(self, 'http_faults_fired', 0) + 1
+            return None
         if k == 'conf_callback':
             self.conf_callbacks.append(toks[1] if len(toks) > 1 else '')
             return None
